@@ -120,6 +120,20 @@ func switchToParentThread(L *LState, nargs int, haserror bool, kill bool) {
 	if parent == nil {
 		L.RaiseError("can not yield from outside of a coroutine")
 	}
+	if !kill {
+		// a yield: the values must fit into the resumer before anything is
+		// switched. If they do not, the overflow is raised here, as an error
+		// of the yielding coroutine - like every hand-over that fails, it
+		// ends the coroutine instead of leaving it suspended half-way, with
+		// the frame of yield still on its stack
+		need := parent.reg.Top() + nargs
+		if !L.wrapped {
+			need++ // the status flag
+		}
+		if !parent.reg.ensure(need) {
+			L.RaiseError("registry overflow")
+		}
+	}
 	L.G.CurrentThread = parent
 	L.Parent = nil
 	if kill {
@@ -148,6 +162,13 @@ func switchToParentThread(L *LState, nargs int, haserror bool, kill bool) {
 func yieldFromGoBody(L *LState) {
 	parent := L.Parent
 	nargs := L.GetTop()
+	need := parent.reg.Top() + nargs
+	if !L.wrapped {
+		need++
+	}
+	if !parent.reg.ensure(need) { // (see switchToParentThread)
+		L.RaiseError("registry overflow")
+	}
 	L.G.CurrentThread = parent
 	L.Parent = nil
 	if !L.wrapped {
